@@ -31,7 +31,7 @@ RULE = ('models (table zoo d=2..4(5) x configs gaussian/default/kde) x all non-e
 ASSUMPTIONS = ['output columns are matched to columns of the recorded draw by exact forward equality out = ppf(Phi(z))']
 
 EPS = A.EPS32
-CONFIGS = ('gaussian-class', 'default', 'kde-instance')
+CONFIGS = ('gaussian-class', 'default', 'kde-instance', 'dict')
 PATTERNS = ('medians', 'alt-5-95', 'far-above', 'far-below')
 NSCRIPT = 2039
 
@@ -52,6 +52,13 @@ def bounds(tier):
     ts = _tables(tier)
     return {'models': len(ts) * len(CONFIGS), 'subsets_per_d': {d: 2 ** d - 2 for d in (2, 3, 4, 5)},
             'patterns': len(PATTERNS), 'containers': 3, 'script_points': NSCRIPT}
+
+
+def prefork():
+    for d in (1, 2, 3, 4, 5, 6):
+        A.korobov_generator(NSCRIPT, d)
+        for n in (31, 301):
+            A.korobov_generator(n, d)
 
 
 def cases(tier, seed):
